@@ -922,9 +922,9 @@ TESTS = [
     Test("der_grid_san", _san_der_enum, run_der_enum, kind="enum", cfgs=SAN, max_workers=8, must_cover=_DER_COVER),
     Test("compact_grid", compact_enum, run_compact_enum, kind="enum", cfgs=CF, max_workers=2,
          must_cover=["compact_accept", "compact_reject", "rec_accept", "rec_reject"]),
-    Test("mutate", mutate_case, run_mutate, quick=6000, thorough=200000, cfgs=CF,
+    Test("mutate", mutate_case, run_mutate, quick=6000, thorough=120000, cfgs=CF,
          must_cover=["fmt:comp", "fmt:uncomp", "fmt:hybrid", "fmt:xonly", "fmt:der", "fmt:compact", "fmt:rec", "accept:hybrid", "der_accept:in_range", "der_reject", "compact_reject"]),
-    Test("never_verifies", never_case, run_never, quick=500, thorough=20000, cfgs=CF,
+    Test("never_verifies", never_case, run_never, quick=500, thorough=10000, cfgs=CF,
          must_cover=["twin:s+n", "twin:r+n", "twin:negative", "twin:oversize", "failed:trailing", "Rx>=n"]),
 ]
 
